@@ -364,7 +364,7 @@ impl Ctx {
             Op::Transform { h } => {
                 if let Some(hd) = self.handles.remove(h) {
                     if !matches!(hd.k, HK::BFU(_) | HK::MFU(_)) {
-                        harness_error(format!("transform_operation on {}", hd.k.kind()));
+                        // the earlier into_single did not succeed: nothing to transform
                         self.handles.insert(*h, hd);
                         return;
                     }
